@@ -37,7 +37,7 @@ func Harness_C01_x509() {
 	envChain, envChainErr, envVCalls = nil, nil, 0
 	var ders [][]byte
 	for i := 0; i < nchain; i++ {
-		c := envCert("cert", 1+vChoice("der-len", 3))
+		c := envCert("cert", 1+vChoice("der-len", 3+vTier()))
 		envChain = append(envChain, c)
 		ders = append(ders, c.Raw)
 	}
